@@ -67,6 +67,7 @@ type Chain struct {
 	release    chan struct{}
 	gid        atomic.Value // string: goroutine id of the rescan goroutine
 	gidOnce    sync.Once
+	via        atomic.Value // string: how the rescan obtained the header it is about to notify
 	retries    atomic.Int64 // scripted failures served
 	subscribes atomic.Int64
 }
@@ -87,6 +88,7 @@ func newChain(g *chaingen.Gen, initial *chaingen.Node, lg *Log) *Chain {
 		release: make(chan struct{}),
 	}
 	c.current.Store(true)
+	c.via.Store("unknown")
 	c.mgr = blockntfns.NewSubscriptionManager(c)
 	c.mgr.Start()
 	return c
@@ -285,6 +287,7 @@ func (c *Chain) BestBlock() (*headerfs.BlockStamp, error) {
 // GetBlockHeaderByHeight reads the visible chain.
 func (c *Chain) GetBlockHeaderByHeight(h uint32) (*wire.BlockHeader, error) {
 	p := c.enter("GetBlockHeaderByHeight")
+	c.via.Store("height-walk")
 	c.mu.Lock()
 	var hdr *wire.BlockHeader
 	if int(h) < len(c.path) {
@@ -319,6 +322,7 @@ func (c *Chain) GetBlockHeader(hash *chainhash.Hash) (*wire.BlockHeader, uint32,
 // for the block currently at that height.
 func (c *Chain) GetFilterHeaderByHeight(h uint32) (*chainhash.Hash, error) {
 	p := c.enter("GetFilterHeaderByHeight")
+	c.via.Store("notification")
 	c.mu.Lock()
 	var (
 		fh   *chainhash.Hash
